@@ -14,7 +14,7 @@ from ..refs import tlvcfg
 ID = "C11"
 LEVEL = "exploration"
 RULE = (
-    "history = sequence of operations over {set_config(c0..c15), derive_comments(c), derive_auth_blocks(c, ecc|cust), append / insert-at-0 / insert-in-middle "
+    "history = sequence of operations over {set_config(c0..c18) without / with additional TLV blocks, derive_comments(c), derive_auth_blocks(c, ecc|cust), append / insert-at-0 / insert-in-middle "
     "of a firmware component with or without TYPE tag, write+read back (replacing the object), foreign comment edit, write-and-check keeping the same object}; ALL sequences up to length 4 (quick) / 5 "
     "(thorough) over a reduced 10-letter alphabet plus seeded random sequences of length 5..25 over the full alphabet; the model is compared with the real "
     "objects after every operation. distinct = digest of the operation sequence; non-trivial = contains at least one set_config or derive operation"
@@ -54,6 +54,10 @@ CONFIGS.append({(K, 1): (9).to_bytes(2, "big"), (K, 4): b"\x01", (K, 3): b"Empty
 # block carries the device-settings version
 CONFIGS.append({CODE: bytes([0x49] * 8), (K, 7): b"\x02", (K, 4): b"\x09", (K, 3): b"DevOnly"})
 CONFIGS.append({CODE: bytes([0x4A] * 8), (K, 7): b"\x03", (K, 5): (12).to_bytes(2, "big"), (K, 1): (321).to_bytes(2, "big"), (K, 2): (4).to_bytes(2, "big"), (K, 4): b"\x0b"})
+# identifier version numerically zero (one byte, two bytes, zero-width value) next to a security code
+CONFIGS.append({CODE: bytes([0x4B] * 8), (K, 1): (55).to_bytes(2, "big"), (K, 5): (6).to_bytes(2, "big"), (K, 7): b"\x00", (K, 6): b"V0"})
+CONFIGS.append({CODE: bytes([0x4C] * 8), (K, 4): b"\x00\x00", (K, 3): b"DevV0"})
+CONFIGS.append({CODE: bytes([0x4D] * 8), (K, 7): b"", (K, 6): b"EmptyVersion"})
 NCFG = len(CONFIGS)
 CUST_KEY = bytes([0x12, 0x34] * 8)
 
@@ -127,6 +131,15 @@ class Runner:
             f.set_config(self.cfgs[op[1]])
             self.order = [e for e in self.order if e[0] != "c"] + [("c",)]
             self.m.config = conf
+            self.m.extras = []
+        elif kind == "setx":
+            # with caller-supplied additional TLV blocks (a fresh list per call; they belong to THIS update only)
+            conf = CONFIGS[op[1]]
+            extras = [bytes((0x7A, 0x3F, op[1])) + b"additional block", b"\x7b\x01\x02"][: 1 + op[1] % 2]
+            f.set_config(self.cfgs[op[1]], list(extras))
+            self.order = [e for e in self.order if e[0] != "c"] + [("c",)]
+            self.m.config = conf
+            self.m.extras = extras
         elif kind == "comments":
             conf = CONFIGS[op[1]]
             f.derive_comments_from_config(self.cfgs[op[1]])
@@ -254,7 +267,13 @@ class Runner:
             blob = bytes(c.blob[: c.actual_len])
             try:
                 ops = []
-                for b in tlvcfg.split_blocks(blob):
+                blocks = tlvcfg.split_blocks(blob)
+                extras = getattr(self.m, "extras", [])
+                if extras:
+                    if blocks[-len(extras):] != list(extras):
+                        return "configuration_component_does_not_encode_the_most_recent_configuration:additional_blocks", {"n_blocks": len(blocks), "tail": blocks[-3:], "expected_tail": list(extras)}
+                    blocks = blocks[: -len(extras)]
+                for b in blocks:
                     ops += tlvcfg.decode_block(b)[0]
             except tlvcfg.TlvError as e:
                 return "configuration_blob_does_not_decode", {"err": str(e)}
@@ -296,7 +315,7 @@ class Runner:
 
 ALPHA_SMALL = [("set", 0), ("set", 1), ("comments", 0), ("comments", 3), ("auth", 0, False), ("auth", 3, True), ("append", 3), ("insert0", 0), ("writeread",), ("writecheck",)]
 ALPHA_FULL = (
-    [("set", i) for i in range(NCFG)] + [("comments", i) for i in range(NCFG)] + [("auth", i, c) for i in range(NCFG) for c in (False, True)]
+    [("set", i) for i in range(NCFG)] + [("setx", i) for i in (0, 1, 3, 0, 1)] + [("comments", i) for i in range(NCFG)] + [("auth", i, c) for i in range(NCFG) for c in (False, True)]
     + [("append", t) for t in (0, 1, 2, 3)] + [("insert0", t) for t in (0, 1, 3)] + [("insertmid", t) for t in (0, 2)] + [("writeread",), ("writecheck",), ("writecheck",), ("comment", "set"), ("comment", "del")]
 )
 
@@ -314,7 +333,7 @@ def run_sequence(ns, ctx, seq):
                 ctx.bin("typeless_component_before_configuration")
             if r.m.config is not None and op[0] == "append":
                 ctx.bin("typeless_component_after_configuration")
-        if op[0] == "set" and r.m.config is not None and r.m.config is not CONFIGS[op[1]]:
+        if op[0] in ("set", "setx") and r.m.config is not None and r.m.config is not CONFIGS[op[1]]:
             ctx.bin("two_different_configurations_in_a_row")
         if op[0] == "auth" and r.obj.auth_blocks:
             prev = set(r.obj.auth_blocks)
@@ -352,7 +371,7 @@ def plan(tier, seed):
 
 
 def mandatory_bins(tier):
-    return ["op_set", "op_comments", "op_auth", "op_append", "op_insert0", "op_insertmid", "op_writeread", "op_writecheck", "op_comment", "op_writeread_bec2", "op_writeread_bf3",
+    return ["op_set", "op_setx", "op_comments", "op_auth", "op_append", "op_insert0", "op_insertmid", "op_writeread", "op_writecheck", "op_comment", "op_writeread_bec2", "op_writeread_bf3",
             "typeless_component_before_configuration", "typeless_component_after_configuration", "two_different_configurations_in_a_row", "derive_after_derive_other_mode", "all_sequences_up_to_bound", "every_ordered_pair_of_configurations", "bus_address_value_zero_or_empty_judged_against_fresh_object"]
 
 
